@@ -954,3 +954,292 @@ def pinv_negative_control(tag, cases):
 
 def frac(q):
     return Fraction(q[0], q[1])
+
+
+# ------------------------------------------------------------------ C16 extensions (additions only)
+# declared self-adjoint operators with indefinite spectrum, trailing triplets (which = "SM"), the scaling law of the
+# pseudo-inverse.  The functions above are unchanged; harness/props/c16.py uses the *_x variants below.
+def mscale(q, A):
+    """Mat.tla!MScale; q = ((re, im), d) a Gaussian rational."""
+    n, d = q
+    if d == 1 and A["d"] == 1:
+        return mk(A["r"], A["c"], 1, lambda i, j: cmul(n, A["e"][i][j]))
+    return mnormalize(mk(A["r"], A["c"], A["d"] * d, lambda i, j: cmul(n, A["e"][i][j])))
+
+
+def qinv(q):
+    """Mat.tla!QInv."""
+    n, d = q
+    return (cscale(d, (n[0], -n[1])), cabs2(n))
+
+
+def triplet_sum(Um, sig, Vm, lo, hi):
+    """LeastSquares.tla!TripletSum (lo, hi 1-based, inclusive)."""
+    idx = list(range(lo - 1, hi))
+    w = len(idx)
+    Sk = mk(w, w, 1, lambda i, j: (sig[lo - 1 + i], 0) if i == j else (0, 0))
+    return mnormalize(mmul(mmul(mgather(Um, list(range(Um["r"])), idx), Sk), madj(mgather(Vm, list(range(Vm["r"])), idx))))
+
+
+def svd_add_tails(c):
+    """Adds c['tail'][k] = sum of the k smallest triplets (what MC_Svd!Trail evaluates, incl. TailOK); returns False when
+    a value would leave 32 bits."""
+    Um, Vm, sig = c["U"], c["V"], c["sig"]
+    r = len(sig)
+
+    def build():
+        tail = {}
+        for k in range(1, r + 1):
+            t = triplet_sum(Um, sig, Vm, r - k + 1, r)
+            rest = c["best"][r - k] if k < r else M([[0] * Vm["r"] for _ in range(Um["r"])])
+            assert meq(madd(t, rest), c["A"])
+            assert meq(triplet_sum(Um, sig, Vm, 1, k), c["best"][k])
+            tail[k] = t
+        return tail
+    tail, peak = peak_of(build)
+    if tail is None:
+        return False
+    c["tail"] = tail
+    c["peak"] = max(c.get("peak", 0), peak)
+    c.setdefault("sa", False)
+    c.setdefault("lam", [])
+    return True
+
+
+def _rowphase(U, ph):
+    rows, d = U
+    return ([[rows[i][j] * ph[i] for j in range(len(rows[i]))] for i in range(len(rows))], d)
+
+
+def sa_unitaries():
+    """Exactly unitary rational eigenvector matrices of the declared self-adjoint catalog operators."""
+    T2 = ([[3, -4], [4, 3]], 5)
+    C2 = ([[3, 4 * I], [4 * I, 3]], 5)                       # complex symmetric AND unitary
+    u = {"I1": ([[1]], 1), "I2": ([[1, 0], [0, 1]], 1), "I3": ([[1, 0, 0], [0, 1, 0], [0, 0, 1]], 1), "T2": T2, "C2": C2,
+         "Q3": Q3, "H4": H4, "Q3r": _rowphase(Q3, [1, I, -I]), "H4r": _rowphase(H4, [1, I, -1, -I]),
+         "T2r": _rowphase(T2, [1, I])}
+    return {k: M(v[0], v[1]) for k, v in u.items()}
+
+
+def sa_plan(tier):
+    """(eigenvector matrix, eigenvalues in any order).  Q3 diag(l) Q3^T is an INTEGER symmetric matrix when the l are
+    congruent modulo 9 (H4: modulo 4, T2: modulo 25)."""
+    plan = [
+        ("I3", [1, -3, 2]),                                   # diag(1, -3, 2)
+        ("Q3", [1, -8, 10]), ("Q3", [-2, 7, -11]),            # symmetric integer 3x3, indefinite, unsorted moduli
+        ("Q3", [1, -3, 2]),                                   # symmetric rational
+        ("H4", [1, -3, 5, -7]), ("H4", [2, -1, -4, 3]),       # symmetric integer / rational 4x4
+        ("T2", [2, -3]), ("T2", [1, -24]),
+        ("C2", [2, -3]), ("Q3r", [1, -8, 10]), ("H4r", [1, -3, 5, -7]), ("T2r", [3, -4]),     # complex Hermitian
+        # controls: definite spectra and an indefinite one whose negative eigenvalues are the small ones
+        ("Q3", [3, 2, 1]), ("Q3", [-3, -2, -1]), ("Q3", [3, -2, -1]), ("I1", [-2]), ("I2", [-1, 2]),
+    ]
+    if tier == "thorough":
+        rng = np.random.RandomState(20240916)       # fixed: the TLC catalog does not depend on VERIF_SEED
+        names = ["I3", "Q3", "H4", "T2", "C2", "Q3r", "H4r", "T2r", "I2"]
+        seen = {(a, tuple(b)) for a, b in plan}
+        while len(plan) < 17 + 60:
+            wn = names[rng.randint(len(names))]
+            n = sa_unitaries()[wn]["r"]
+            mods = rng.permutation(np.arange(1, 8))[:n]
+            lam = [int(m) * int(rng.choice([-1, 1])) for m in mods]
+            if (wn, tuple(lam)) not in seen:
+                seen.add((wn, tuple(lam)))
+                plan.append((wn, lam))
+    return plan
+
+
+def svd_selfadjoint_cases(tier):
+    """Hermitian A = W diag(lam) W^H presented as an SVD: lam listed by decreasing modulus, V = W (columns permuted
+    accordingly), U = V diag(sign lam), Sigma = |lam|.  Same record format as svd_cases plus sa / lam / tail."""
+    W = sa_unitaries()
+    cases, dropped = [], 0
+    for wn, lam0 in sa_plan(tier):
+        Wm = W[wn]
+        n = Wm["r"]
+        order = sorted(range(n), key=lambda i: -abs(lam0[i]))
+        lam = [lam0[i] for i in order]
+        sig = [abs(x) for x in lam]
+        assert all(sig[i] > sig[i + 1] for i in range(n - 1)) and all(sig)
+
+        def build():
+            Vm = mgather(Wm, list(range(n)), order)
+            Um = mk(n, n, Vm["d"], lambda i, j: cscale(-1 if lam[j] < 0 else 1, Vm["e"][i][j]))
+            S = mk(n, n, 1, lambda i, j: (sig[i], 0) if i == j else (0, 0))
+            A = mnormalize(mmul(mmul(Um, S), madj(Vm)))
+            for X in (Um, Vm):
+                assert meq(mmul(madj(X), X), M([[1 if i == j else 0 for j in range(n)] for i in range(n)]))
+                mmul(X, madj(X))
+            L = mk(n, n, 1, lambda i, j: (lam[i], 0) if i == j else (0, 0))
+            assert meq(mmul(mmul(Vm, L), madj(Vm)), A) and meq(madj(A), A)          # SelfAdjointOK
+            best = {}
+            for k in range(1, n + 1):
+                Sk = mk(k, k, 1, lambda i, j: (sig[i], 0) if i == j else (0, 0))
+                best[k] = mnormalize(mmul(mmul(cols_of(Um, k), Sk), madj(cols_of(Vm, k))))
+            return Um, Vm, A, best
+        res, peak = peak_of(build)
+        if res is None:
+            dropped += 1
+            continue
+        Um, Vm, A, best = res
+        c = {"id": f"SA:{wn}*diag{list(lam0)}*{wn}^H", "U": Um, "V": Vm, "sig": sig, "A": A, "best": best, "m": n, "n": n,
+             "complex": not is_real_mat(A), "peak": peak, "sa": True, "lam": lam,
+             "indefinite": min(lam) < 0 < max(lam),
+             "negdom": any(lam[i] < 0 < lam[j] for i in range(n) for j in range(i + 1, n)),
+             "integer": A["d"] == 1}
+        if not svd_add_tails(c):
+            dropped += 1
+            continue
+        cases.append(c)
+    return cases, dropped
+
+
+def svd_cases_x(tier):
+    """The catalog of svd_cases (with trailing triplet sums added) followed by the declared self-adjoint operators."""
+    base, dropped = svd_cases(tier)
+    out = []
+    for c in base:
+        if svd_add_tails(c):
+            out.append(c)
+        else:
+            dropped += 1
+    sa, d2 = svd_selfadjoint_cases(tier)
+    return out + sa, dropped + d2
+
+
+def render_svd_catalog_x(cases):
+    recs = [{"id": c["id"], "U": jmat(c["U"]), "V": jmat(c["V"]), "sig": list(c["sig"]), "A": jmat(c["A"]),
+             "sa": bool(c.get("sa", False)), "lam": list(c.get("lam", []))} for c in cases]
+    return "---- MODULE SvdCatalog ----\nEXTENDS Integers, Sequences\nSCases == " + tla.to_tla(recs) + "\n====\n"
+
+
+SVD_INVARIANTS_X = SVD_INVARIANTS[:-1] + ("TailOK", "SelfAdjointOK", "Emit")
+
+
+def run_svd_model_x(tag, cases):
+    wd = tla.make_build_dir(tag)
+    try:
+        res = tla.run_tlc("MC_Svd", _cfg(SVD_INVARIANTS_X), wd, gen_files={"SvdCatalog.tla": render_svd_catalog_x(cases)})
+        _check_tlc(res, "MC_Svd")
+        out = {(r["id"], r["k"]): r for r in res.json_lines()}
+        want = sum(len(c["sig"]) for c in cases)
+        if len(out) != want or res.distinct != want:
+            raise tla.TLCError(f"MC_Svd: expected {want} states, TLC found {res.distinct}, parsed {len(out)} JSON lines")
+        for c in cases:
+            for k, B in c["best"].items():
+                rec = out[(c["id"], k)]
+                ok = (same_mat(rec["best"], B) and same_mat(rec["A"], c["A"]) and same_mat(rec["tail"], c["tail"][k])
+                      and rec["sa"] == bool(c.get("sa", False)) and list(rec["lam"]) == list(c.get("lam", []))
+                      and rec["indefinite"] == bool(c.get("indefinite", False)) and rec["negdom"] == bool(c.get("negdom", False)))
+                if not ok:
+                    raise tla.TLCError(f"MC_Svd: TLC and the integer mirror disagree on {c['id']} k={k}")
+        return out, {"states": res.distinct, "transitions": res.states, "wall_s": round(res.wall, 1), "cases": len(cases),
+                     "invariants": list(SVD_INVARIANTS_X)}
+    finally:
+        common.cleanup(wd)
+
+
+def svd_selfadjoint_negative_control(tag, cases):
+    """MC_Svd!SelfAdjointOK must reject (1) a declared self-adjoint case whose eigenvalue signs do not match U = V sign(lam)
+    (one sign flipped, factors kept) and (2) a non-Hermitian matrix declared self-adjoint.  Returns the number rejected."""
+    from concurrent.futures import ThreadPoolExecutor
+    sa = next(c for c in cases if c.get("sa") and c.get("negdom"))
+    bad1 = dict(sa)
+    bad1["lam"] = [-sa["lam"][0]] + list(sa["lam"][1:])
+    ns = next(c for c in cases if not c.get("sa") and c["m"] == c["n"] and c["m"] >= 2 and not meq(madj(c["A"]), c["A"]))
+    bad2 = dict(ns)
+    bad2["sa"], bad2["lam"] = True, list(ns["sig"])
+
+    def one(bad):
+        wd = tla.make_build_dir(tag + "-negsa")
+        try:
+            res = tla.run_tlc("MC_Svd", _cfg(("SelfAdjointOK", )), wd, workers=2,
+                              gen_files={"SvdCatalog.tla": render_svd_catalog_x([bad])})
+            return 1 if res.violated == "SelfAdjointOK" else 0
+        finally:
+            common.cleanup(wd)
+    with ThreadPoolExecutor(max_workers=2) as ex:
+        return sum(ex.map(one, (bad1, bad2)))
+
+
+# candidate scales of the law pinv(c A) = pinv(A) / c that TLC checks where the scaled normal equations fit into 32 bits
+LAW_SCALES = {"2": ((2, 0), 1), "-3": ((-3, 0), 1), "1/2": ((1, 0), 2), "10": ((10, 0), 1), "1/10": ((1, 0), 10),
+              "i": ((0, 1), 1), "(1+i)/2": ((1, 1), 2), "1e3": ((1000, 0), 1), "1e-3": ((1, 0), 1000),
+              "1e7": ((10**7, 0), 1), "1e-7": ((1, 0), 10**7)}
+
+
+def pinv_law_mirror(A, b, x, q):
+    """What LeastSquares.tla!PinvScalingLaw evaluates for one scale."""
+    cA = mscale(q, A)
+    xs = mscale(qinv(q), x)
+    assert meq(pinv_solve(cA, b), xs)
+    assert is_min_norm_lsq(cA, b, xs)
+    return xs
+
+
+def pinv_cases_x(tier):
+    """pinv_cases plus, per case, the scales (names of LAW_SCALES) for which TLC can check the scaling law."""
+    cases, dropped = pinv_cases(tier)
+    for c in cases:
+        c["scales"] = []
+        for name, q in LAW_SCALES.items():
+            res, peak = peak_of(pinv_law_mirror, c["A"], c["b"], c["x"], q)
+            if res is not None:
+                c["scales"].append(name)
+    return cases, dropped
+
+
+def render_pinv_catalog_x(cases, lawpow=None):
+    recs = []
+    for c in cases:
+        p = c["params"]
+        rec = {"id": c["id"], "kind": c["kind"], "A": jmat(c["A"]), "b": jmat(c["b"]),
+               "sc": list(p.get("c", [0, 0])), "diag": [list(x) for x in p.get("diag", [[0, 0]])],
+               "perm": list(p.get("perm", [1])),
+               "scales": [{"n": list(LAW_SCALES[s][0]), "d": LAW_SCALES[s][1]} for s in c.get("scales", [])]}
+        if lawpow is not None:
+            rec["lawpow"] = lawpow
+        recs.append(rec)
+    return "---- MODULE PinvCatalog ----\nEXTENDS Integers, Sequences\nPCases == " + tla.to_tla(recs) + "\n====\n"
+
+
+PINV_INVARIANTS_X = PINV_INVARIANTS[:-1] + ("ScalingLawOK", "Emit")
+
+
+def run_pinv_model_x(tag, cases):
+    wd = tla.make_build_dir(tag)
+    try:
+        res = tla.run_tlc("MC_Pinv", _cfg(PINV_INVARIANTS_X), wd, gen_files={"PinvCatalog.tla": render_pinv_catalog_x(cases)})
+        _check_tlc(res, "MC_Pinv")
+        out = {r["id"]: r for r in res.json_lines()}
+        if len(out) != len(cases) or res.distinct != 2 * len(cases):
+            raise tla.TLCError(f"MC_Pinv: expected {2 * len(cases)} states, TLC found {res.distinct}, parsed {len(out)} JSON lines")
+        by_scale = {}
+        for c in cases:
+            if not same_mat(out[c["id"]]["x"], c["x"]) or out[c["id"]]["law"] != len(c.get("scales", [])):
+                raise tla.TLCError(f"MC_Pinv: TLC and the integer mirror disagree on {c['id']}")
+            for s in c.get("scales", []):
+                by_scale[s] = by_scale.get(s, 0) + 1
+        return out, {"states": res.distinct, "transitions": res.states, "wall_s": round(res.wall, 1), "cases": len(cases),
+                     "invariants": list(PINV_INVARIANTS_X), "scaling_law_instances": sum(by_scale.values()),
+                     "scaling_law_instances_by_scale": by_scale}
+    finally:
+        common.cleanup(wd)
+
+
+def pinv_law_negative_control(tag, cases):
+    """The wrong laws pinv(c A) = pinv(A) (power 0) and pinv(c A) = pinv(A) / c^2 must be rejected by ScalingLawOK."""
+    from concurrent.futures import ThreadPoolExecutor
+    c = dict(next(c for c in cases if c["kind"] == "Dense" and c["m"] != c["n"] and "2" in c.get("scales", [])))
+    c["scales"] = ["2", "1/10"]
+
+    def one(power):
+        wd = tla.make_build_dir(tag + "-neglaw")
+        try:
+            res = tla.run_tlc("MC_Pinv", _cfg(("ScalingLawOK", )), wd, workers=2,
+                              gen_files={"PinvCatalog.tla": render_pinv_catalog_x([c], lawpow=power)})
+            return 1 if res.violated == "ScalingLawOK" else 0
+        finally:
+            common.cleanup(wd)
+    with ThreadPoolExecutor(max_workers=2) as ex:
+        return sum(ex.map(one, (0, 2)))
